@@ -123,6 +123,13 @@ def announceR {V E : Type} [DecidableEq E] (o : Oracle V E) (e : Entry V E) (now
 def announce {V E : Type} [DecidableEq E] (o : Oracle V E) (e : Entry V E) (now : Int) (ev : Ev V E) : Out V E :=
   announceR o e now (resolve o ev)
 
+/-- line 584: `if pobj.export: self.updateCallback(self, pobj)` — the funnel of a parameter that is not exported
+stores like any other but never tells the dispatcher -/
+def announceX {V E : Type} [DecidableEq E] (exported : Bool) (o : Oracle V E) (e : Entry V E) (now : Int) (r : VE V E) :
+    Out V E :=
+  let out := announceR o e now r
+  if exported then out else ⟨out.entry, none⟩
+
 /-! ### the time stamp argument -/
 
 /-- the `timestamp` argument of `announceUpdate` -/
@@ -258,6 +265,14 @@ def runM {V E : Type} [DecidableEq E] (o : Oracle V E) (caught : CbOutcome → B
 /-- the messages of one parameter in a stream -/
 def projM {V E : Type} (q : Nat) (ms : List (Nat × Msg V E)) : List (Msg V E) :=
   (ms.filter (fun m => m.1 == q)).map (·.2)
+
+/-! ### activation (`Dispatcher.handle_activate`, dispatcher.py:279-320) -/
+
+/-- the snapshot sent to a connection that activates: one message per parameter it subscribes to (all exported
+parameters of the module in the order of its accessibles, or the one named in the specifier), each built by
+`make_update` from the cache entry as it is when the message is sent -/
+def snapshot {V E : Type} (es : Nat → Entry V E) (ps : List Nat) : List (Nat × Msg V E) :=
+  ps.map (fun p => (p, mkMsg (es p)))
 
 /-! ### event producers -/
 
